@@ -543,6 +543,23 @@ func (ex *Exec) evalCall(e *Expr, env *Env) Val {
 				return ex.boolV(ts.Select(iv.Dom, k))
 			}
 			return ex.boolV(ts.Select(ex.st.cells[cell].(Scalar).T, k))
+		case "deref":
+			// deref(x, "T"): the *T stored in interface value x, as a pointer (use with typeis(x, "*pkg.T"))
+			v := ex.eval1(args[0], env)
+			iv, ok := v.(IfaceV)
+			if !ok || args[1].K != EStr {
+				unsup("contract: deref(iface, \"T\")")
+			}
+			t := ex.lookupType(args[1].Name, env)
+			if t == nil {
+				unsup("contract: deref: unknown type %s", args[1].Name)
+			}
+			if iv.Dyn != nil {
+				if rp, isRef := iv.Dyn.(RefPtr); isRef {
+					return rp
+				}
+			}
+			return RefPtr{Ref: iv.Val, Elem: t}
 		case "same":
 			// same(a, b): the two slices/strings are the same object range (base, offset, length), not merely equal contents
 			x, okx := ex.eval1(args[0], env).(SliceV)
